@@ -1029,8 +1029,15 @@ def run_config(chk, d, tier, decl_file):
         chk.cov["negative_controls"].append(dict(control="config-controls", fired=False, detail="not run: no configuration parsed cleanly on this tree"))
     else:
         case, _ = passing
-        if _probe(lambda k: rerun(case, k)) != 0:
-            raise MachineryError("control base case is not clean")
+    if passing is not None and _probe(lambda k: rerun(case, k)) != 0:
+        # the configuration that was parsed exactly as declared earlier in this process is not parsed as declared NOW: parse_config
+        # is not a function of the file (a verdict about the implementation, not a failure of the machinery)
+        text = rep.build(case)
+        chk.violation(dict(clause="parse-depends-on-history", kind="judged-again-later", mode=case["mode"]),
+                      f"a configuration (mode {case['mode']}) that parsed as declared earlier in this process does not parse as declared when it is parsed again after the other configurations of this run",
+                      dict(kind="config-history", toml=text, how="parse many configurations (results overwritten by the caller in between), then parse this one again"))
+        chk.cov["negative_controls"].append(dict(control="config-controls", fired=False, detail="not run: the base case is not judged clean on this tree"))
+    elif passing is not None:
         keys = [tuple(k) for k in table["keys"][case["mode"]]]
         # (1) a wrong documented default for an omitted key
         i = next((i for i, (k, b) in enumerate(zip(keys, case["keys"])) if not b and case["exp"][i][1] == "py"), None)
